@@ -972,7 +972,15 @@ def oracle_conn(h):
         if in_stretch and drained and frames:
             st = frames[-1][1]["state"]
             if st["sync_finished"] - stretch_start_sf != 1:
-                fails.append(("C15", "peer %d observed InitialSyncFinished %d times for its current join" % (p, st["sync_finished"] - stretch_start_sf), {}))
+                heavy = next((e for e in h.events if e["ev"] == "heavy_world"), None)
+                if (p != 0 and heavy and heavy["bytes"] > 5 * 1024 * 1024 and st["sync_finished"] - stretch_start_sf == 0
+                        and st.get("client_connected") is False and not st.get("ents")):
+                    # D20: renet's reliable channel keeps at most 5 MiB of unacknowledged bytes per client; the whole snapshot is
+                    # queued in one call, the channel reports exhaustion and renet disconnects the joiner
+                    fails.append(("C15", "peer %d: the join is refused: the snapshot (%d bytes of component values) exceeds the reliable channel's "
+                                  "memory budget, renet disconnects the joiner, nothing of the snapshot arrives and InitialSyncFinished is never observed" % (p, heavy["bytes"]), {}))
+                else:
+                    fails.append(("C15", "peer %d observed InitialSyncFinished %d times for its current join" % (p, st["sync_finished"] - stretch_start_sf), {}))
         # at the frame the event is raised on a client, the snapshot content has been applied
         if p != 0:
             sf = 0
